@@ -1138,3 +1138,38 @@ End PrintedAssignment.
 Lemma run_journal_l_plain ord bucket : forall xs pl,
   run_journal_l ord bucket pl (map (fun x => (x, x)) xs) = run_journal ord bucket pl xs.
 Proof. induction xs as [|x xs IH]; intros pl; cbn [map run_journal_l run_journal]; [reflexivity | rewrite IH; reflexivity]. Qed.
+
+(* ================================================================== a cost is never written without its amount *)
+Section CostNeedsAmount.
+
+(* post_has_simple_amount's last test (print.cc:66-69): a posting with a cost the user wrote is not simple.
+   given_cost is set together with cost (textual.cc:1630) and cost is never cleared, hence the hypothesis *)
+Lemma simple_amount_no_written_cost p e :
+  simple_amount (p, e) = true -> p_cost_calculated p = false -> p_cost p = None.
+Proof.
+  unfold simple_amount. intros H Hcc. rewrite Hcc in H. destruct (p_cost p); [|reflexivity].
+  cbn [negb] in H. rewrite !andb_false_r in H. discriminate.
+Qed.
+
+Theorem cost_shown_only_with_amount cp xs count index first p e ln :
+  (e_given e <> None -> p_cost p <> None) ->
+  decide_post cp xs count index first (p, e) = Ok (Some ln) ->
+  l_cost ln <> None -> l_amt ln <> None.
+Proof.
+  intros Hinv. unfold decide_post. destruct (p_generated p); [discriminate|].
+  destruct (p_calculated p) eqn:Hc; [intros [= <-]; cbn; congruence|].
+  destruct (p_amt p) as [a|]; [|intros [= <-]; cbn; congruence].
+  destruct (elides count index first (p, e)) eqn:E.
+  - (* the amount is left out: then the posting is simple, so no cost is written *)
+    destruct (elides_must_balance _ _ _ _ E) as [_ [_ [_ [_ [Hs _]]]]].
+    destruct (e_given e) as [g|] eqn:Hg; cbn [orb bind].
+    + destruct (p_cost_calculated p) eqn:Hcc; cbn [bind].
+      * intros [= <-]. cbn. congruence.
+      * exfalso. apply Hinv; [discriminate|]. apply (simple_amount_no_written_cost p e Hs Hcc).
+    + intros [= <-]. cbn. congruence.
+  - (* the amount is printed *)
+    destruct (match e_given e with Some _ => _ | None => _ end) as [c|]; cbn [bind]; [|discriminate].
+    intros [= <-]. cbn. discriminate.
+Qed.
+
+End CostNeedsAmount.
